@@ -108,6 +108,7 @@ pub struct RunStats {
     pub cases: BTreeSet<u64>,
     pub nontrivial_cases: BTreeSet<u64>,
     pub oracle_calls: u64,
+    pub known_hits: BTreeMap<String, u64>,
 }
 
 impl RunStats {
